@@ -1,7 +1,9 @@
 /- Wire ops of property C19 (extract / extract-geotherm model run at Float). -/
 import CijModel.Wire
 import CijModel.Extract
-open Lean Cij Cij.Wire Cij.Extract
+import CijModel.ExtractSrc
+import Generated.ExtractSpec
+open Lean Cij Cij.Wire Cij.Extract Cij.ExtractSrc
 
 namespace Cij.Ops.C19
 
@@ -25,6 +27,26 @@ def nodeSpline : Spline Float := fun xs ys z x y =>
   match xs.findIdx? (· == x), ys.findIdx? (· == y) with
   | some i, some j => ((z[i]?).bind (·[j]?)).getD (0.0 / 0.0)
   | _, _ => 0.0 / 0.0
+
+/-- the 4×4 bicubic (tensor Lagrange) spline, NaN on other shapes -/
+def spline44 : Spline Float := bicubic44With (0.0 / 0.0)
+
+def splineOf (j : Json) : Spline Float :=
+  match (j.getObjVal? "spline").toOption with
+  | some (.str "bicubic44") => spline44
+  | _ => nodeSpline
+
+def optStr (j : Json) (k : String) : Except String (Option String) :=
+  match (j.getObjVal? k).toOption with
+  | none => pure none
+  | some .null => pure none
+  | some v => some <$> strOfJson v
+
+def geoOfJson (j : Json) : Except String (List (String × List Float)) := do
+  (← arrOfJson j).mapM fun e => do
+    match ← arrOfJson e with
+    | [n, c] => pure (← strOfJson n, ← floats1 c)
+    | _ => .error "geo entry must be [name, column]"
 
 def jOptFloats (l : List (Option Float)) : Json :=
   Json.arr (l.map fun x => match x with | some v => floatToJson v | none => Json.null).toArray
@@ -50,15 +72,44 @@ def handle : Handler := fun op j =>
   | "c19.geotherm" => some do
       let dir ← dirOfJson (← field j "dir")
       let vars ← listOf strOfJson (← field j "vars")
-      let geo ← (← arrOfJson (← field j "geo")).mapM fun e => do
-        match ← arrOfJson e with
-        | [n, c] => pure (← strOfJson n, ← floats1 c)
-        | _ => .error "geo entry must be [name, column]"
+      let geo ← geoOfJson (← field j "geo")
       let tcol ← strOfJson (← field j "tcol")
       let pcol ← strOfJson (← field j "pcol")
-      pure (match geotherm nodeSpline dir vars geo tcol pcol with
+      pure (match geotherm (splineOf j) dir vars geo tcol pcol with
         | none => Json.str "error"
         | some t => Json.arr (t.map fun c => Json.arr #[Json.str c.1, jFloats1 c.2]).toArray)
+  -- the SOURCE as translated on this run, interpreted (CijModel/ExtractSrc.lean); options left out take click's defaults
+  | "c19.src_argmin" => some do
+      let xs ← floats1 (← field j "xs")
+      let y ← floatOfJson (← field j "y")
+      let t : Tab Float := { rows := xs, cols := [], vals := [] }
+      pure (match Generated.ExtractSpec.extractMain.yIndex.eval t y with | some i => jInt i | none => Json.null)
+  | "c19.src_extract" => some do
+      let dir ← dirOfJson (← field j "dir")
+      let vars ← listOf strOfJson (← field j "vars")
+      let r := extractOf Generated.ExtractSpec.loadExtract Generated.ExtractSpec.extractMain dir vars
+        (← optFloat j "T") (← optFloat j "P")
+      pure (match r with
+        | none => Json.str "error"
+        | some (idx, cols) => Json.mkObj [("index", jFloats1 idx),
+            ("cols", Json.arr (cols.map fun c => Json.arr #[Json.str c.1, jOptFloats c.2]).toArray)])
+  | "c19.src_geotherm" => some do
+      let dir ← dirOfJson (← field j "dir")
+      let vars ← listOf strOfJson (← field j "vars")
+      let geo ← geoOfJson (← field j "geo")
+      let r := geothermOf Generated.ExtractSpec.loadGeotherm Generated.ExtractSpec.fitData
+        Generated.ExtractSpec.geothermMain Generated.ExtractSpec.geothermOptions (splineOf j) dir vars geo
+        (← optStr j "tcol") (← optStr j "pcol")
+      pure (match r with
+        | none => Json.str "error"
+        | some t => Json.arr (t.map fun c => Json.arr #[Json.str c.1, jFloats1 c.2]).toArray)
+  | "c19.bicubic44" => some do
+      let xs ← floats1 (← field j "xs")
+      let ys ← floats1 (← field j "ys")
+      let z ← floats2 (← field j "z")
+      let px ← floats1 (← field j "px")
+      let py ← floats1 (← field j "py")
+      pure (jFloats1 (List.zipWith (spline44 xs ys z) px py))
   | _ => none
 
 end Cij.Ops.C19
